@@ -6,6 +6,7 @@ import Driver.Mapper
 import Driver.Watch
 import Driver.Store
 import Driver.Expand
+import Driver.Opl
 
 open Driver
 
@@ -20,6 +21,7 @@ def dispatch (comp : String) (toks : List String) : String :=
   else if comp == "conc" then handleConc toks
   else if comp == "store" then handleStore toks
   else if comp == "expand" then handleExpand toks
+  else if comp == "opl" then handleOpl toks
   else "bad-op"
 
 partial def loop (h : IO.FS.Stream) (out : IO.FS.Stream) : IO Unit := do
